@@ -21,6 +21,7 @@ from . import sym
 from .sym import PathAbort, SBool, SNum, Unsupported
 
 UF_USED = set()
+NORAISE = "noraise"
 U = Fraction(1, 2 ** 53)  # unit round-off of binary64, round to nearest
 
 
@@ -39,6 +40,7 @@ class Ctx:
         self.pc = []
         self.opts = opts
         self.fmode = False
+        self.norm_angles = bool(opts.get("norm_angles", False))
         self.solver = z3.Solver()
         self.solver.set("timeout", opts.get("branch_timeout_ms", 1500))
         self.uf = {}  # (name, argids) -> const
@@ -54,6 +56,7 @@ class Ctx:
         self._pi = None
         self.period = None
         self.domain_checks = opts.get("domain_checks", False)
+        self.in_spec = False
         self.n_branch_checks = 0
         self.trace = []
 
@@ -66,11 +69,23 @@ class Ctx:
         """pi as a symbolic constant with a rational enclosure (DESIGN 3.4)."""
         if self._pi is None:
             p = z3.Real("pi")
-            self._pi = SNum(p)
-            self.add_axiom(z3.And(p > z3.Q(314159265, 100000000), p < z3.Q(314159266, 100000000)))
+            self._pi = SNum(p, 1)
+            if self.norm_angles:
+                # angle unit normalised to turns (DESIGN 3.4a): sound because every operation executed
+                # under this context is checked to be homogeneous in the angle unit (SNum.deg)
+                self.add_axiom(p == z3.Q(1, 2))
+            else:
+                self.add_axiom(z3.And(p > z3.Q(314159265, 100000000), p < z3.Q(314159266, 100000000)))
         return self._pi
 
+    def N(self, t):
+        """In angle-normalised contexts the symbol pi is replaced by the numeral 1/2 (keeps VCs linear)."""
+        if self.norm_angles:
+            return z3.substitute(t, (z3.Real("pi"), z3.Q(1, 2)))
+        return t
+
     def add_axiom(self, a):
+        a = self.N(a)
         self.extra_axioms.append(a)
         self.solver.add(a)
 
@@ -84,7 +99,7 @@ class Ctx:
         return r != z3.unsat
 
     def branch(self, cond):
-        cond = z3.simplify(cond)
+        cond = z3.simplify(self.N(cond))
         if z3.is_true(cond):
             return True
         if z3.is_false(cond):
@@ -118,7 +133,7 @@ class Ctx:
             if not bool(cond):
                 raise PathAbort()
             return
-        t = cond.t if isinstance(cond, SBool) else cond
+        t = self.N(cond.t if isinstance(cond, SBool) else cond)
         self.pc.append(t)
         self.solver.add(t)
 
@@ -129,7 +144,10 @@ class Ctx:
             goal = cond
         else:
             goal = z3.BoolVal(bool(cond))
-        self.obls.append(Obl(name, list(self.pc), goal, None, list(self.decisions), note))
+        self._flush_axioms()
+        o = Obl(name, list(self.pc), self.N(goal), None, list(self.decisions), note)
+        o.axioms = len(self.extra_axioms)  # prefix of the axiom list that exists at this point
+        self.obls.append(o)
 
     # ---- function symbols
     def uf_app(self, name, args):
@@ -196,17 +214,22 @@ class Ctx:
 
     # ---- axioms
     def _flush_axioms(self):
-        from .axioms import instantiate
+        from .axioms import instantiate, gram_axioms
         new = instantiate(self, self._ax_done)
         self._ax_done = len(self.uf_list)
+        if len(self.gram_names) != getattr(self, "_gram_done", 0):
+            # re-instantiated for the enlarged set of base vectors (duplicates are harmless)
+            self._gram_done = len(self.gram_names)
+            new = new + gram_axioms(self)
         for a in new:
+            a = self.N(a)
             self.extra_axioms.append(a)
             self.solver.add(a)
 
     def all_axioms(self):
         from .axioms import gram_axioms
         self._flush_axioms()
-        return list(self.extra_axioms) + gram_axioms(self)
+        return list(self.extra_axioms)
 
 
 class ExploreResult:
@@ -242,17 +265,27 @@ def explore(harness, vc_factory, opts=None):
             res.paths += 1
         except z3.Z3Exception as e:
             res.errors.append(f"z3: {e}")
+        except (PathAbort, Unsupported):
+            raise
+        except Exception as e:
+            # the real code (or the contract) raised on this path: obligation "<harness>.noraise" = path infeasible
+            import traceback as _tb
+            tb = _tb.extract_tb(e.__traceback__)
+            where = next((f"{f.filename.split('/')[-1]}:{f.lineno}" for f in reversed(tb) if "/resonaate/" in f.filename), "?")
+            import os as _os
+            if _os.environ.get("PYVC_DEBUG"):
+                _tb.print_exc()
+            sym.set_ctx(c)
+            try:
+                c._flush_axioms()
+            finally:
+                sym.set_ctx(None)
+            c.obls.append(Obl(NORAISE, list(c.pc), z3.BoolVal(False), None, list(c.decisions), f"{type(e).__name__}: {str(e)[:120]} at {where}"))
+            res.paths += 1
         finally:
             sym.set_ctx(None)
-        ax = None
         for o in c.obls:
-            if ax is None:
-                sym.set_ctx(c)
-                try:
-                    ax = c.all_axioms()
-                finally:
-                    sym.set_ctx(None)
-            o.axioms = ax
+            o.axioms = c.extra_axioms[: o.axioms] if isinstance(o.axioms, int) else list(c.extra_axioms)
             res.obls.append(o)
         res.branch_checks += c.n_branch_checks
         work.extend(c.alts)
